@@ -2,10 +2,9 @@
 use vstd::prelude::*;
 verus! {
 //@@ INCLUDE lib/prelude.rs
-//@@ INCLUDE lib/sign.rs
 //@@ INCLUDE lib/mul_lemmas.rs
-//@@ INCLUDE lib/mulalg_stubs.rs
-//@@ INCLUDE lib/mulalg_lemmas.rs
-//@@ INCLUDE lib/mulalg_toom_lemmas.rs
+//@@ INCLUDE lib/mulalg_core_lemmas.rs
+//@@ INCLUDE lib/mulalg_root_stubs.rs
+//@@ INCLUDE lib/mulalg_root_lemmas.rs
 }
 fn main() {}
